@@ -624,7 +624,26 @@ func c10Classify(c *Ctx) {
 // parameter with a constant, a nil test of the cause, or strings.HasPrefix of
 // the message with a constant.
 func c10HarmlessBeforeChain(opP, causeP *ssa.Parameter, iff *ssa.If) bool {
-	if op, x, y, ok := ssau.CondOf(iff.Cond); ok && (op == token.EQL || op == token.NEQ) {
+	return c10HarmlessCond(opP, causeP, iff.Cond, 0)
+}
+
+func c10HarmlessCond(opP, causeP *ssa.Parameter, cond ssa.Value, d int) bool {
+	// a condition kept in a variable: every part of it is harmless
+	if phi, ok := cond.(*ssa.Phi); ok && d < 3 {
+		for _, e := range phi.Edges {
+			if _, isC := e.(*ssa.Const); isC {
+				continue
+			}
+			if !c10HarmlessCond(opP, causeP, e, d+1) {
+				return false
+			}
+		}
+		return len(phi.Edges) > 0
+	}
+	if u, ok := cond.(*ssa.UnOp); ok && u.Op == token.NOT {
+		return c10HarmlessCond(opP, causeP, u.X, d+1)
+	}
+	if op, x, y, ok := ssau.CondOf(cond); ok && (op == token.EQL || op == token.NEQ) {
 		if x == ssa.Value(opP) || y == ssa.Value(opP) {
 			_, c1 := ssau.ConstString(x)
 			_, c2 := ssau.ConstString(y)
@@ -634,7 +653,7 @@ func c10HarmlessBeforeChain(opP, causeP *ssa.Parameter, iff *ssa.If) bool {
 			return true
 		}
 	}
-	if call, ok := iff.Cond.(*ssa.Call); ok && ssau.CallName(call) == "strings.HasPrefix" {
+	if call, ok := cond.(*ssa.Call); ok && ssau.CallName(call) == "strings.HasPrefix" {
 		_, isC := ssau.ConstString(call.Common().Args[1])
 		return isC
 	}
